@@ -4,11 +4,11 @@ CONSTANTS
   Null = "0"
   Kinds <- K2
   BatchSize = 3
-  MaxBlocks = 5
+  MaxBlocks = 4
   MaxXfers = 7
   MaxPerBlock = 3
-  Replica <- R2
-  DiskBackend <- R2
+  Replica <- R1
+  DiskBackend <- R1
   GCReplica <- R1
   MTB = 1
   DevMemSeekExclusive = FALSE
